@@ -433,7 +433,17 @@ nodesLoop:
 				parent := tc.ancestors[len(tc.ancestors)-1]
 				// The fallthrough must be a statement of the body of the
 				// case, not of a block or an 'if' nested in the body.
-				if cas, ok := parent.(*ast.Case); ok && len(nodes) == len(cas.Body) && &nodes[0] == &cas.Body[0] {
+				cas, ok := parent.(*ast.Case)
+				if ok && len(cas.Body) > 0 && (len(nodes) != len(cas.Body) || &nodes[0] != &cas.Body[0]) {
+					// nodes is not the body of the case: the fallthrough can
+					// only be the labeled statement that ends the body.
+					last := cas.Body[len(cas.Body)-1]
+					for lab, isLabel := last.(*ast.Label); isLabel; lab, isLabel = last.(*ast.Label) {
+						last = lab.Statement
+					}
+					ok = len(nodes) == 1 && last == ast.Node(node)
+				}
+				if ok {
 					nn := len(nodes)
 				CASE:
 					switch i {
